@@ -313,11 +313,24 @@ func (p *pparser) textMessage(closer string) []tfEntry {
 			if !colon {
 				p.fail("expected ':' or '{' after %q in option aggregate", e.name)
 			}
-			if p.isSym("[") {
-				p.fail("list values in option aggregates are not supported")
+			if p.accept("[") { // list value: read and dropped (no option the check reads has one)
+				for !p.accept("]") {
+					if p.accept("{") {
+						p.textMessage("}")
+						p.expect("}")
+					} else if p.peek().kind == tEOF {
+						p.fail("unterminated list in option aggregate")
+					} else {
+						p.scalar()
+					}
+					p.accept(",")
+				}
+				empty := ""
+				e.scalar = &empty
+			} else {
+				s := p.scalar()
+				e.scalar = &s
 			}
-			s := p.scalar()
-			e.scalar = &s
 		}
 		if !p.accept(",") {
 			p.accept(";")
@@ -451,10 +464,30 @@ var importedTypes = map[string]map[string]string{
 
 // ParseProto parses the text of a .proto file. name is the path under which
 // protoc is told to register it (regen.sh: api.proto, relative to its directory).
-func ParseProto(name, src string) (f File, err error) {
+func ParseProto(name, src string) (File, error) {
+	f, _, err := ParseProtoWith(name, src, DefaultImports)
+	return f, err
+}
+
+// DefaultImports finds the types of an imported file among the descriptors
+// linked into the binary, then in the fixed table of well-known files.
+func DefaultImports(path string) (map[string]string, bool) {
+	if tys, ok := RegistryImports(path); ok {
+		return tys, true
+	}
+	tys, ok := importedTypes[path]
+	return tys, ok
+}
+
+// ParseProtoWith is ParseProto with an explicit import resolver. An import the
+// resolver does not know is opaque: it contributes no type names (returned in
+// opaque). A field or rpc whose type cannot be resolved gets the kind
+// "unresolved" and keeps the name as written: the result then differs from any
+// real descriptor at exactly that field.
+func ParseProtoWith(name, src string, imports func(string) (map[string]string, bool)) (f File, opaque []string, err error) {
 	toks, err := lex(name, src)
 	if err != nil {
-		return File{}, err
+		return File{}, nil, err
 	}
 	p := &pparser{file: name, toks: toks, syms: map[string]string{}}
 	defer func() {
@@ -493,9 +526,9 @@ func ParseProto(name, src string) (f File, err error) {
 			path := p.str()
 			p.expect(";")
 			f.Deps = append(f.Deps, path)
-			tys, ok := importedTypes[path]
+			tys, ok := imports(path)
 			if !ok {
-				p.fail("import %q: not in the table of known imported files (harness limit)", path)
+				opaque = append(opaque, path)
 			}
 			for full, kind := range tys {
 				p.syms[full] = kind
@@ -529,11 +562,35 @@ func ParseProto(name, src string) (f File, err error) {
 	for _, fx := range p.fixups {
 		kind, full, ok := p.resolve(fx.scope, fx.raw)
 		if !ok {
-			return File{}, &ParseError{name, fx.line, fmt.Sprintf("type %q not found from scope %q", fx.raw, fx.scope)}
+			kind, full = "unresolved", fx.raw
 		}
 		fx.set(kind, full)
 	}
-	return f, nil
+	for i := range f.Messages {
+		setPacked(&f.Messages[i], f.Syntax == "proto3")
+	}
+	return f, opaque, nil
+}
+
+// setPacked decides the encoding of repeated scalar fields once their kinds are
+// known: the explicit packed option, else packed in proto3 and unpacked in proto2.
+func setPacked(m *Message, proto3 bool) {
+	for i := range m.Fields {
+		fl := &m.Fields[i]
+		packable := fl.Card == 3 && fl.Kind != "string" && fl.Kind != "bytes" && fl.Kind != "message" &&
+			fl.Kind != "group" && fl.Kind != "unresolved"
+		switch {
+		case !packable:
+			fl.Packed = false
+		case fl.packedOpt != nil:
+			fl.Packed = *fl.packedOpt
+		default:
+			fl.Packed = proto3
+		}
+	}
+	for i := range m.Nested {
+		setPacked(&m.Nested[i], proto3)
+	}
 }
 
 func join(scope, name string) string {
@@ -619,10 +676,10 @@ func camelCase(s string) string { // protoc ToCamelCase(name, lower_first=false)
 	return sb.String()
 }
 
-// fieldOptions parses [ name = constant, ... ] and returns the json_name if given.
-func (p *pparser) fieldOptions() (json *string) {
+// fieldOptions parses [ name = constant, ... ] and returns the json_name and packed options if given.
+func (p *pparser) fieldOptions() (json *string, packed *bool) {
 	if !p.accept("[") {
-		return nil
+		return nil, nil
 	}
 	for {
 		name := p.optName()
@@ -638,12 +695,16 @@ func (p *pparser) fieldOptions() (json *string) {
 		if name == "json_name" {
 			json = sc
 		}
+		if name == "packed" && sc != nil {
+			b := *sc == "true"
+			packed = &b
+		}
 		if !p.accept(",") {
 			break
 		}
 	}
 	p.expect("]")
-	return json
+	return json, packed
 }
 
 func (p *pparser) skipStatement() {
@@ -685,9 +746,11 @@ func (p *pparser) field(scope string, m *Message, label string, oneof *string) {
 	p.expect("=")
 	f.Number = p.integer()
 	f.JSON = jsonName(f.Name)
-	if j := p.fieldOptions(); j != nil {
+	j, pk := p.fieldOptions()
+	if j != nil {
 		f.JSON = *j
 	}
+	f.packedOpt = pk
 	p.expect(";")
 	f.Oneof = oneof
 	f.Kind, f.Type = m.Fields[idx].Kind, m.Fields[idx].Type // set at once for scalar types, later otherwise
@@ -765,7 +828,7 @@ func (p *pparser) message(scope string) Message {
 			p.expect("=")
 			num := p.integer()
 			js := jsonName(fname)
-			if j := p.fieldOptions(); j != nil {
+			if j, _ := p.fieldOptions(); j != nil {
 				js = *j
 			}
 			p.expect(";")
@@ -843,7 +906,7 @@ func (p *pparser) service(scope string) Service {
 			s.Methods = append(s.Methods, Method{})
 			mi := len(s.Methods) - 1
 			sp := &s
-			m := Method{Name: p.ident()}
+			m := Method{Name: p.ident(), Idem: "IDEMPOTENCY_UNKNOWN"}
 			p.expect("(")
 			if p.isIdent("stream") && p.toks[p.pos+1].kind == tIdent {
 				p.pos++
@@ -871,6 +934,8 @@ func (p *pparser) service(scope string) Service {
 						name, sc, agg, isAgg := p.optionBody()
 						p.expect(";")
 						switch {
+						case name == "idempotency_level" && sc != nil:
+							m.Idem = *sc
 						case name == "(google.api.http)" && isAgg:
 							h := httpFromText(p, agg)
 							m.HTTP = &h
